@@ -1728,6 +1728,10 @@ class GroupBy:
             result_index = common_index
             group_key = self.group_ikey
 
+        def positional(x):
+            # re-order by position: a pandas Series would look the positions up as labels
+            return x.iloc[indexer] if isinstance(x, pd.Series) else x[indexer]
+
         arg_list = [
             signature(ema_grouped)
             .bind(
@@ -1736,8 +1740,8 @@ class GroupBy:
                 values=_val_to_numpy(val_arr)[indexer],
                 alpha=alpha,
                 halflife=halflife,
-                times=None if times is None else times[indexer],
-                mask=None if mask is None else mask[indexer],
+                times=None if times is None else positional(times),
+                mask=None if mask is None else positional(mask),
             )
             .args
             for val_arr in value_list
